@@ -325,6 +325,9 @@ executeProcess:
 			if err == nil {
 				p.State.Set(state.Executing)
 				p.ExitNum, err = fork.Execute(fn.Block)
+			} else {
+				// the function never runs so nothing else will release the fork's FID
+				GlobalFIDs.Deregister(fork.Id)
 			}
 		}
 
